@@ -78,6 +78,10 @@ def plan(pid, tier, seed):
         S += [scen.profile_history(pid, base + i, tier) for i in range(n(tier, 10, 50))]
         if pid in ("C10", "C14", "C20"):
             S += tlcgen.corpus_scenarios(seed, n(tier, 25, 600))
+        if pid == "C15" and tier == "thorough":
+            S += [scen.fee_cut_history(seed)]
+        if pid == "C15":
+            S += [scen.fee_cut_history(seed, per_block=40, nblocks=3)]
         M += models.for_property(pid, tier)
     elif pid == "C16":
         S += [scen.cycles_history(base + i, nblocks=n(tier, 8, 14)) for i in range(n(tier, 12, 80))]
